@@ -222,7 +222,7 @@ theorem addAll_after (expOk : Line → Bool) (after : List Line) :
       (s.inCommand = true → match after with
         | a :: _ => stripPrefix ['>', ' '] a = none
         | [] => True) →
-      (∀ e ∈ expLines after, expOk e = true) →
+      (∀ e ∈ expLines after, expOk e = true ∧ isExitCodeForm e = false) →
       (match s.exitCode with
         | some _ => exitCodes after = []
         | none => (exitCodes after).length ≤ 1) →
@@ -254,7 +254,7 @@ theorem addAll_after (expOk : Line → Bool) (after : List Line) :
         (by intro h; cases h) (fun e he' => hexp e (by simp [expLines, hx] at he' ⊢; exact he')) (by simpa using hr)
       refine ⟨ic, ?_⟩
       simp only [number, addAll, State.addBody, h3, he, Bool.or_self, Bool.false_eq_true, if_false,
-        State.addBodyRest, hsp, hx, hnone, Option.isSome_none]
+        State.addBodyRest, hsp, hx, hnone, Option.isSome_none, exitCodeOverflows_of_extract hx]
       simp only [h3] at hic ⊢
       rw [hic]
       simp [expLines, exitCodes, hx, hnone]
@@ -264,13 +264,15 @@ theorem addAll_after (expOk : Line → Bool) (after : List Line) :
         split
         · rename_i h; exact hcont h
         · rfl
-      have g1 : expOk a = true := hexp a (by simp [expLines, hx])
+      have g1 : expOk a = true := (hexp a (by simp [expLines, hx])).1
+      have g2 : exitCodeOverflows a = false :=
+        exitCodeOverflows_of_not_form (hexp a (by simp [expLines, hx])).2
       obtain ⟨ic, hic⟩ := ih { s with inCommand := false, expectations := s.expectations ++ [a] } (k + 1) h2 h3
         (by intro h; cases h) (fun e he' => hexp e (by simp [expLines, hx] at he' ⊢; exact Or.inr he'))
         (by simpa [exitCodes, hx] using hcode)
       refine ⟨ic, ?_⟩
       simp only [number, addAll, State.addBody, h3, he, Bool.or_self, Bool.false_eq_true, if_false,
-        State.addBodyRest, hsp, hx, g1, if_true]
+        State.addBodyRest, hsp, hx, g1, g2, if_true]
       simp only [h3] at hic ⊢
       rw [hic]
       simp [expLines, exitCodes, hx]
